@@ -66,6 +66,11 @@ def main():
                     for pid, (rc, lines) in sorted(res.items()):
                         print("FALSE-ALARM twin %s: %s exit %d %s" % (cid, pid, rc, lines[:2]))
             else:
+                if "--update-meta" in args and not only:
+                    mp = os.path.join(VERIF, "seeded", cid, "meta.json")
+                    meta = json.load(open(mp))
+                    meta["checks_firing"] = {p: {"exit": v[0], "lines": v[1]} for p, v in sorted(res.items()) if v[0] == 1}
+                    json.dump(meta, open(mp, "w"), indent=1)
                 errs = {p: v for p, v in res.items() if v[0] != 1}
                 if not any(v[0] == 1 for v in res.values()):
                     bad += 1
